@@ -417,6 +417,16 @@ func (e *MetaExecutor) CreateIterator(nodeID uint64, shardIDs []uint64, ctx cont
 		return nil, err
 	}
 
+	if resp.Type == influxql.Unknown {
+		// The node produced no iterator for these shards (they hold no such measurement
+		// or field) and sends nothing after the response. Report no iterator, as the local
+		// mapping does: an empty reader claiming to be a float iterator would decide the
+		// element type of the merge when it happens to arrive first, and the merge would
+		// close and drop the integer, string or boolean inputs of every other node.
+		conn.Close()
+		return nil, nil
+	}
+
 	return query.NewReaderIterator(ctx, conn, resp.Type, resp.Stats), nil
 }
 
